@@ -59,9 +59,9 @@ CHECKS.update({
         design="3/C02", note=TB + "Not modelled: the incumbent bookkeeping inside f2c / third-party cores (monitor only). Known findings: original DIRECT with constraints and no feasible sample (opt_f = +Inf), AUGLAG when the first subsidiary run ends ROUNDOFF_LIMITED.",
         technique="Lean 4 proof (invariant over runAlg for arbitrary algorithms; running-minimum fold) + replay correspondence"),
     "C05": dict(category="proof",
-        text="Lean 4 proof (memo_returns_best_evaluated): for COBYLA and the truncated-Newton family, for every algorithm machine, opt_f is the minimum over the in-box evaluations (first minimiser, strict improvement rule), sign restored when maximizing. For the other listed incumbent-keeping algorithms the running-minimum monitor compares opt_f with the in-bounds trace on every run; the wrapper replay shows no layer changes the algorithm's result.",
-        design="3/C05", note=TB + "The incumbent rules inside BOBYQA/NEWUOA/DIRECT/CRS/ISRES/ESCH/StoGO/NM/Sbplx/PRAXIS are not modelled (monitor only).",
-        technique="Lean 4 proof for the memoized families + running-minimum monitor + replay correspondence"),
+        text="Lean 4 proof (memo_returns_best_evaluated): for COBYLA and the truncated-Newton family, for every algorithm machine, opt_f is the minimum over the in-box evaluations (first minimiser, strict improvement rule), sign restored when maximizing. Controlled Random Search: the population rule of crs.c (insert every initial point; a trial replaces the worst member iff it is strictly better; report the tree minimum) is modelled (Model/Crs.lean) and proved to report the best value ever evaluated for every initial population and trial sequence (Props/C05Crs.lean: crs_best_is_min, crs_result_mono; NaN witness); every CRS run is replayed through that model (inc stream). The list of memoized algorithms is pinned (Props/C05.lean). For the other listed incumbent-keeping algorithms the running-minimum monitor compares opt_f with the in-bounds trace on every run (budget sweep 1..N, converged runs); the wrapper replay shows no layer changes the algorithm's result.",
+        design="3/C05", note=TB + "The incumbent rules inside BOBYQA/NEWUOA/DIRECT/ISRES/ESCH/StoGO/NM/Sbplx/PRAXIS are not modelled (monitor only). Fixed by commits: BOBYQA roundoff exit, memo copy-back, PRAXIS.",
+        technique="Lean 4 proof for the memoized families and the CRS population rule + running-minimum monitor + replay correspondence"),
     "C07": dict(category="proof",
         text="Lean 4 proof (optimize_preserves_settings): for every algorithm machine, user and return path the object's user-visible settings after nlopt_optimize equal those before (maximize flip and stopval sign undone via neg(neg s) = s on the bit pattern, an unset initial step stays unset); determinism of the model is by construction, its premise for the code is the regenerated table of writable globals (no_hidden_state, rng_and_timer_are_tls over nm/readelf of the fresh build). Monitor: the same problem in two processes, twice on one object (reseeded) and on a copy gives bitwise equal traces and results; getter snapshots before = after on every path.",
         design="3/C07", note=TB + "Nondeterminism from uninitialised reads inside numeric cores is not expressible in the model. Known shared mutable globals (StoGO counters) are a C16 finding.",
